@@ -22,6 +22,7 @@ type Step struct {
 	K    string   `json:"k"` // resize write attr delattr link
 	Dims []uint64 `json:"dims,omitempty"`
 	Seed int      `json:"seed,omitempty"`
+	Zero bool     `json:"zero,omitempty"` // write: every element zero (the caller clears the dataset)
 }
 
 type Case struct {
@@ -61,7 +62,7 @@ func gen(t *rapid.T) Case {
 	for i := 0; i < n; i++ {
 		switch rapid.IntRange(0, 8).Draw(t, "isWrite") {
 		case 0, 1, 2:
-			c.Steps = append(c.Steps, Step{K: "write", Seed: rapid.IntRange(0, 9999).Draw(t, "seed")})
+			c.Steps = append(c.Steps, Step{K: "write", Seed: rapid.IntRange(0, 9999).Draw(t, "seed"), Zero: rapid.IntRange(0, 4).Draw(t, "zeros") == 0})
 			continue
 		case 3:
 			// other operations on the same object between resizes and writes (they rewrite its header)
@@ -76,7 +77,14 @@ func gen(t *rapid.T) Case {
 			continue
 		}
 		dims := make([]uint64, rank)
-		switch rapid.SampledFrom([]string{"ok", "ok", "ok", "ok", "beyond", "rank", "zero", "same"}).Draw(t, "rk") {
+		switch rapid.SampledFrom([]string{"ok", "ok", "ok", "ok", "ok", "ok", "ok", "ok", "beyond", "beyond", "rank", "rank", "zero", "zero", "same", "same", "huge"}).Draw(t, "rk") {
+		case "huge":
+			// an extent that needs more than 32 bits along an unlimited dimension (declared only; a later resize brings it back)
+			copy(dims, cur)
+			d := rapid.IntRange(0, rank-1).Draw(t, "dim")
+			if c.D.MaxDims[d] == hdf5.Unlimited && !hist.HugeExtent(cur) {
+				dims[d] = rapid.SampledFrom([]uint64{1<<32 + 7, 1 << 32, 1 << 33, 1<<40 + 1, 1<<32 - 1}).Draw(t, "hugeExtent")
+			}
 		case "ok":
 			for d := range dims {
 				hi := uint64(maxExt + 3)
@@ -193,6 +201,23 @@ func classify(c Case) (bool, []string) {
 	if acc > 0 {
 		labels = append(labels, "has_accepted_resize")
 	}
+	nonzero := false
+	for _, st := range c.Steps {
+		switch {
+		case st.K == "write" && !st.Zero:
+			nonzero = true
+		case st.K == "write" && st.Zero && nonzero:
+			labels = append(labels, "cleared_after_data")
+			nonzero = false
+		case st.K == "resize":
+			for _, x := range st.Dims {
+				if x >= 1<<32-1 && x != hdf5.Unlimited {
+					labels = append(labels, "extent_beyond_32_bits")
+					break
+				}
+			}
+		}
+	}
 	return cross || gwsg || acc >= 2, labels
 }
 
@@ -221,7 +246,14 @@ func run(c Case) vt.Verdict {
 		var st hist.Step
 		switch s.K {
 		case "write":
-			st = ex.Apply(hist.Op{K: "write", Path: "/r", Seed: s.Seed, Mode: hist.ModeSeq})
+			mode := hist.ModeSeq
+			if s.Zero {
+				mode = hist.ModeZero
+			}
+			if hist.HugeExtent(ex.M.Resolve("/r").Dims) {
+				continue // a full write of a declared-only extent is not part of the domain
+			}
+			st = ex.Apply(hist.Op{K: "write", Path: "/r", Seed: s.Seed, Mode: mode})
 			if st.Err == "" {
 				written = true
 				staleRisk = false // a full write re-creates the index for the current shape
@@ -229,6 +261,15 @@ func run(c Case) vt.Verdict {
 				return vt.Bad("step %d: full write at shape %v rejected: %s", i, ex.M.Resolve("/r").Dims, st.Err)
 			}
 		case "resize":
+			nhuge := 0
+			for _, x := range s.Dims {
+				if x >= 1<<31 {
+					nhuge++
+				}
+			}
+			if nhuge > 1 {
+				return vt.Skipped("more than one dimension beyond 31 bits: the element count leaves 64 bits")
+			}
 			before := append([]uint64{}, ex.M.Resolve("/r").Dims...)
 			st = ex.Apply(hist.Op{K: "resize", Path: "/r", Dims: s.Dims})
 			if st.Err == "" && written {
